@@ -1,6 +1,6 @@
 /-
 C15 — Codec parameter parsing is spec-correct and total on arbitrary bytes.
-Property theorems only; helper lemmas live in IpcHub/Lemmas/{Bits,Epb,Pack,H264Sps,H264Dims}.lean.
+Property theorems only; helper lemmas live in IpcHub/Lemmas/{Bits,Epb,Pack,H264Sps,H264Dims,Asc,Hevc*,MetaReady}.lean.
 
 Models: Model/Bits.lean (utils/bits/reader.go), Model/Epb.lean (utils/h264or5.go),
 Model/H264Sps.lean (av/codec/h264/sps.go, shortcut.go); instantiated with the facts regenerated
@@ -13,6 +13,7 @@ import IpcHub.Lemmas.H264Dims
 import IpcHub.Lemmas.Asc
 import IpcHub.Lemmas.HevcDecode
 import IpcHub.Lemmas.HevcVps
+import IpcHub.Lemmas.MetaReady
 import IpcHub.Model.CodecInst
 namespace IpcHub.Props.C15
 open IpcHub.Bits IpcHub.BitSyntax IpcHub.Epb IpcHub.H264 IpcHub.H264Syntax IpcHub.AscSyntax
@@ -32,6 +33,21 @@ theorem c15_source_facts :
     IpcHub.Gen.h264MaxCpbCnt = 32 ∧ IpcHub.Gen.h264MaxDpbFrames = 16 ∧
     IpcHub.Gen.h264Mono183 = false ∧ IpcHub.Gen.h264CropByChroma = true ∧ IpcHub.Gen.h264FpsWide = true :=
   ⟨rfl, rfl, rfl, rfl, rfl, rfl, rfl, rfl, rfl, rfl, rfl, rfl, rfl, rfl⟩
+
+/-- The bodies behind the Boolean shape facts, as obligations of their own: `Width`, `Height`, `cropUnits`, `FrameRate`,
+    `IsFixedFrameRate` of h264.RawSPS; `FrameRate`, `IsFixedFrameRate` of hevc.H265RawSPS (the code's convention, see
+    `c15_hevc_sps_rate_partial`); the three `MetadataIsReady` shortcuts — the error of `Decode` is returned BEFORE anything
+    is stored in the metadata, which is what Model/MetaReady.lean describes and `c15_total_usable_*` rest on —; and the two
+    functions of av/format/sdp/parsemeta.go that take the parameter sets out of an fmtp line (after 36129d9 / eb46fba). -/
+theorem c15_shape_facts :
+    IpcHub.Gen.h264WidthBody = "cropUnitX, _ := sps.cropUnits() ; return (int(sps.PicWidthInMbsMinus1)+1)*16 - cropUnitX*(int(sps.FrameCropLeftOffset)+int(sps.FrameCropRightOffset))" ∧
+    IpcHub.Gen.h264HeightBody = "_, cropUnitY := sps.cropUnits() ; return (2-int(sps.FrameMbsOnlyFlag))*(int(sps.PicHeightInMapUnitsMinus1)+1)*16 - cropUnitY*(int(sps.FrameCropTopOffset)+int(sps.FrameCropBottomOffset))" ∧
+    IpcHub.Gen.h264CropUnitsBody = "chromaArrayType := sps.ChromaFormatIdc ; if sps.SeparateColourPlaneFlag == 1 { chromaArrayType = 0 } ; cropUnitX, cropUnitY = 1, 2-int(sps.FrameMbsOnlyFlag) ; switch chromaArrayType { case 1: cropUnitX, cropUnitY = 2, 2*cropUnitY case 2: cropUnitX = 2 } ; return" ∧
+    IpcHub.Gen.h264FrameRateBody = "if sps.Vui.NumUnitsInTick == 0 { return 0.0 } ; return float64(sps.Vui.TimeScale) / (2 * float64(sps.Vui.NumUnitsInTick))" ∧
+    IpcHub.Gen.h264FixedRateStd = true ∧ IpcHub.Gen.hevcFrameRateStd = true ∧ IpcHub.Gen.hevcFixedRateStd = true ∧
+    IpcHub.Gen.h264ReadyStd = true ∧ IpcHub.Gen.hevcReadyStd = true ∧ IpcHub.Gen.aacReadyStd = true ∧
+    IpcHub.Gen.sdpH264SetsStd = true ∧ IpcHub.Gen.sdpH265SetsStd = true :=
+  ⟨rfl, rfl, rfl, rfl, rfl, rfl, rfl, rfl, rfl, rfl, rfl, rfl⟩
 
 /-! ### bits: every descriptor of the standards is read back exactly -/
 
@@ -110,6 +126,37 @@ theorem c15_h264_sps (s : SpsSyntax) (wf : SpsWF s) (pps : List UInt8) (hp : pps
   have h2 : pps.isEmpty = false := by cases pps <;> simp_all
   simp [metadataIsReady, h1, h2, hd, hdim]
 
+/-- C15, last clause, H.264 ("for arbitrary bytes … and SDP with such parameter sets still yields a usable stream").
+    Totality itself is Lean totality of the models: every decoder model is a structurally recursive total function whose
+    only outcomes are `.ok` and `.error` (`Fault.panic` = the index panic the deferred `recover` of `Decode` turns into an
+    error), so "no panic escapes, no loop" holds of the model by construction and of the code by the differential run
+    under a watchdog.  What needs proof is the consequence for the stream: WHATEVER bytes the SDP carried as
+    sprop-parameter-sets (`sps0`, `pps0` — any byte strings), after parsemeta.go stored them and ran
+    `h264.MetadataIsReady`, one in-band repetition of a valid SPS (any syntax tree in range) with a non-empty PPS and a
+    coded slice leaves the depacketizer ready, hands the slice on, and the metadata is that of a parameter set the
+    parser accepts: either the SDP's own SPS with exactly the values decoded from it, or the in-band SPS with the
+    standard's width, height, fixed-rate flag and frame rate; and if the parser rejects the SDP's SPS it is the in-band
+    one — a rejected parameter set never poisons the stream (what the stored seed C15b broke). -/
+theorem c15_total_usable_h264 (sps0 pps0 : List UInt8) (s : SpsSyntax) (wf : SpsWF s) (pps : List UInt8) (hp : pps ≠ []) :
+    let dec := IpcHub.MetaReady.dec264 genCfg
+    let std : IpcHub.MetaReady.Dims := { width := croppedWidth s, height := croppedHeight s,
+                                         fixed := fixedFrameRate s, fps := H264Syntax.frameRate s }
+    let r := IpcHub.MetaReady.afterSdpAndInBand false dec [] sps0 pps0 [] (encSpsNal s) pps
+    r.2 = true ∧ r.1.metaReady = true ∧
+    ((r.1.vm.sps = removeNaluSeparator sps0 ∧ dec (removeNaluSeparator sps0) = some r.1.vm.dims) ∨
+     (r.1.vm.sps = encSpsNal s ∧ r.1.vm.dims = std)) ∧
+    (dec (removeNaluSeparator sps0) = none → r.1.vm.sps = encSpsNal s ∧ r.1.vm.dims = std) := by
+  intro dec std r
+  obtain ⟨ok, hc, hf⟩ := c15_h264_cfg_ok
+  obtain ⟨hd, hdim⟩ := c15_h264_sps_generic genCfg ok hc hf s wf
+  have hdec : dec (encSpsNal s) = some std := by
+    simp only [dec, IpcHub.MetaReady.dec264, hd]
+    simp only [dimsOf] at hdim
+    injection hdim with h1 h2 h3 h4
+    simp [std, h1, h2, h3, h4]
+  have hne : encSpsNal s ≠ [] := by intro h; have : (encSpsNal s).isEmpty = false := rfl; simp [h] at this
+  exact IpcHub.MetaReady.usable false dec [] sps0 pps0 [] (encSpsNal s) pps (by simp) hne hp std hdec
+
 /-- The pinned tree's Width/Height (crop unit fixed to 2, uint16 arithmetic), FrameRate
     (`num_units_in_tick*2` in uint32) and profile list, as models with the old facts: concrete valid
     SPS on which they differ from the standard (replayed on the implementation from corpus/C15). -/
@@ -136,13 +183,22 @@ theorem c15_asc_source_facts :
     IpcHub.Gen.aacHierGuard = "asc.ObjectType == AOT_SBR || (asc.ObjectType == AOT_PS && !(r.Peek(3)&0x03 != 0 && r.Peek(9)&0x3F == 0))" :=
   ⟨rfl, rfl, rfl⟩
 
-/-- C15 / AAC for the current source tree: for every AudioSpecificConfig syntax tree in range — GA object
-    types 1–4 or an escaped object type, table or explicit 24-bit sampling frequency, channel
-    configurations 1–7, no / hierarchical (AOT 5, AOT 29) / backward-compatible (0x2b7, 0x548) SBR and PS
-    signalling — `AudioSpecificConfig.Decode` on the bytes of the specification's encoder succeeds with the
-    object type and core frequency of the tree, and `aac.MetadataIsReady` reports the channel count of
-    Table 1.19 and the stream's sampling rate (the extension frequency when SBR is signalled present). -/
-theorem c15_asc (s : AscSyntax) (wf : AscWF s) :
+/-- C15 / AAC for the current source tree, **partial**.
+    Full statement: for EVERY syntactically valid AudioSpecificConfig `aac.MetadataIsReady` reports the channel count of
+    Table 1.19 and the stream's sampling rate (the extension sampling frequency when SBR is signalled present).
+    Proved for the syntax trees of `AscWF`: core audioObjectType 1–4 (AAC Main/LC/SSR/LTP, GASpecificConfig with
+    dependsOnCoreCoder = 0 and extensionFlag = 0) or an escaped audioObjectType 32–95 other than ALS with an empty specific
+    configuration; sampling frequency by table index 0–12 or the explicit 24-bit value; channelConfiguration 1–7; no /
+    hierarchical (audioObjectType 5, 29 first) / backward-compatible (syncExtensionType 0x2b7, 0x548) SBR and PS signalling.
+    On these `AudioSpecificConfig.Decode` of the specification's encoder's bytes succeeds with the object type and core
+    frequency of the tree and `aac.MetadataIsReady` reports Table 1.19's channels and the stream's rate.
+    EXCLUDED: audioObjectType 6–30 as the core type (their specific configurations — ER types, CELP, HVXC, TTSI, SSC,
+    ELD … — are not in the specification's encoder); GASpecificConfig with dependsOnCoreCoder = 1 or extensionFlag = 1;
+    channelConfiguration 0 (program_config_element) and 8–15; ALS (36), whose specific config overrides rate and channels
+    (modelled and run differentially, no theorem); epConfig.  Reason: the code does not parse the object-type specific
+    configuration but looks for the 11 bits 0x2b7 bit by bit behind the header (FFmpeg's heuristic); the statement for an
+    arbitrary specific configuration needs "the configuration does not contain the pattern", which is false in general. -/
+theorem c15_asc_partial (s : AscSyntax) (wf : AscWF s) :
     (∃ a, IpcHub.Asc.decode IpcHub.Asc.genCfg (encAsc s) = .ok a ∧ a.objectType = s.aot ∧
           a.sampleRate = frequencyOf s.samplingFrequencyIndex s.samplingFrequency ∧
           a.channels = channelCount s.channelConfiguration ∧ a.extSampleRate = IpcHub.Asc.extRateOf s) ∧
@@ -187,14 +243,16 @@ theorem c15_hevc_sps_head (s : IpcHub.HevcSyntax.SpsSyn) (wf : IpcHub.Hevc.HeadW
   obtain ⟨q, hq⟩ := IpcHub.Hevc.spsHead_enc _ c15_hevc_source_facts.1 s wf rest
   exact ⟨_, hq, rfl, rfl, rfl, rfl, IpcHub.Hevc.width_headOf s q, IpcHub.Hevc.height_headOf s q⟩
 
-/-- Stage 2 (full strength): for every H.265 SPS syntax tree in range, `H265RawSPS.Decode` on the NAL unit of the
-    specification's encoder succeeds and agrees with the tree, and `hevc.MetadataIsReady` stores the standard's
-    width, height, picture rate and the fixed-rate flag.  Covered: profile_tier_level with sub-layers, sub-layer
-    ordering info (both flag values), scaling list data, PCM, short-term reference picture sets — explicitly
-    coded **and** predicted (inter_ref_pic_set_prediction_flag = 1; the stored delta-step form is proved to represent
-    the delta arrays of 7.4.8, so NumDeltaPocs is the standard's for every following set) —, long-term pictures,
-    VUI with default display window, timing, HRD with sub-picture parameters and sub-layers, extension flags,
-    trailing bits and emulation prevention. -/
+/-- Stage 2 (full strength for decode, width and height): for every H.265 SPS syntax tree in range, `H265RawSPS.Decode` on
+    the NAL unit of the specification's encoder succeeds and agrees with the tree, and `hevc.MetadataIsReady` is ready and
+    stores the standard's width and height; the fixed-rate flag and the rate it stores are the CODE's convention
+    (`HevcSyntax.fixedFrameRate`: timing information present; `HevcSyntax.frameRate`: one clock tick per picture) — what
+    the standard says about those two is `c15_hevc_sps_rate_partial`.
+    Covered: profile_tier_level with sub-layers, sub-layer ordering info (both flag values), scaling list data, PCM,
+    short-term reference picture sets — explicitly coded **and** predicted (inter_ref_pic_set_prediction_flag = 1; the
+    stored delta-step form is proved to represent the delta arrays of 7.4.8, so NumDeltaPocs is the standard's for every
+    following set) —, long-term pictures, VUI with default display window, timing, HRD with sub-picture parameters and
+    sub-layers, extension flags, trailing bits and emulation prevention. -/
 theorem c15_hevc_sps (s : IpcHub.HevcSyntax.SpsSyn) (hw : IpcHub.Hevc.HeadWF s) (bw : IpcHub.Hevc.BodyWF s)
     (htid : 1 ≤ s.nuh_temporal_id_plus1) (vps pps : List UInt8) (hv : vps ≠ []) (hp : pps ≠ []) :
     (∃ raw, IpcHub.Hevc.decodeSps IpcHub.Hevc.genCfg (IpcHub.HevcSyntax.encSpsNal s) = .ok raw ∧ IpcHub.Hevc.Agrees raw s) ∧
@@ -209,6 +267,86 @@ theorem c15_hevc_sps (s : IpcHub.HevcSyntax.SpsSyn) (hw : IpcHub.Hevc.HeadWF s) 
     obtain ⟨b0, b1, hpk, _, _⟩ := IpcHub.Hevc.pack_nalHeader 33 s.nuh_layer_id s.nuh_temporal_id_plus1 (Or.inr rfl) ⟨htid, hw.tid⟩
     simp [IpcHub.HevcSyntax.encSpsNal, hpk]
   simp [IpcHub.Hevc.metadataIsReady, h1, h2, h3, hd, IpcHub.Hevc.dims_of_agrees raw s ha]
+
+/-- H.265 fixed-rate flag and picture rate, **partial**.
+    Full statement: for every H.265 SPS syntax tree in range `hevc.MetadataIsReady` stores the STANDARD's fixed-rate flag
+    (`fixedFrameRateStd`: fixed_pic_rate_general/within_cvs_flag[HighestTid] = 1 in the VUI's hrd_parameters(), E.3.2) and
+    picture rate (`frameRateStd`: vui_time_scale / (vui_num_units_in_tick · (elemental_duration_in_tc_minus1[HighestTid] + 1))
+    when the rate is fixed, the clock tick rate otherwise).
+    Proved for the trees of `RateAgree`: timing information (non-zero tick and scale) comes with a fixed picture rate of one
+    clock tick per picture — and for every tree without timing information.
+    EXCLUDED (the code's `IsFixedFrameRate` is `FrameRate() > 0`, marked TODO in the source; open known findings
+    hevc-fixed-rate-assumed-from-timing-info and hevc-frame-rate-ignores-elemental-duration, witnesses in
+    `c15_hevc_rate_counterexamples`): timing information without fixed_pic_rate_*_flag[HighestTid] = 1 (in particular
+    without hrd_parameters()), and elemental_duration_in_tc_minus1[HighestTid] > 0. -/
+theorem c15_hevc_sps_rate_partial (s : IpcHub.HevcSyntax.SpsSyn) (hw : IpcHub.Hevc.HeadWF s) (bw : IpcHub.Hevc.BodyWF s)
+    (htid : 1 ≤ s.nuh_temporal_id_plus1) (vps pps : List UInt8) (hv : vps ≠ []) (hp : pps ≠ [])
+    (agree : IpcHub.HevcSyntax.RateAgree s) :
+    (IpcHub.Hevc.metadataIsReady IpcHub.Hevc.genCfg vps (IpcHub.HevcSyntax.encSpsNal s) pps).map (fun d => (d.fixed, d.fps)) =
+      some (IpcHub.HevcSyntax.fixedFrameRateStd s, IpcHub.HevcSyntax.frameRateStd s) := by
+  rw [(c15_hevc_sps s hw bw htid vps pps hv hp).2]
+  simp only [Option.map_some, Option.some.injEq, Prod.mk.injEq]
+  obtain ⟨hfix, hel⟩ := agree
+  constructor
+  · cases hf : IpcHub.HevcSyntax.fixedFrameRate s
+    · simp [IpcHub.HevcSyntax.fixedFrameRateStd, hf]
+    · simp [IpcHub.HevcSyntax.fixedFrameRateStd, hf, hfix hf]
+  · unfold IpcHub.HevcSyntax.frameRateStd
+    cases ht : IpcHub.HevcSyntax.topHrdSubLayer s with
+    | none => rfl
+    | some l =>
+      cases hfl : (l.fixed_pic_rate_general_flag || l.fixed_pic_rate_within_cvs_flag)
+      · simp only [hfl]; simp
+      · have := hel l ht hfl
+        cases IpcHub.HevcSyntax.frameRate s with
+        | none => simp [hfl]
+        | some q => obtain ⟨n, d⟩ := q; simp [this, hfl]
+
+/-- Witnesses of the two excluded classes, proved on the current model (replayed on the implementation from
+    corpus/C15/hevc-fixed-rate.case): (a) 1280x720 with timing 1001/30000 and no hrd_parameters(): the standard constrains
+    no picture rate, `hevc.MetadataIsReady` stores fixed = true; (b) timing 1/50 with fixed_pic_rate_general_flag = 1 and
+    elemental_duration_in_tc_minus1 = 1: 25 pictures per second by the standard, 50 stored. -/
+theorem c15_hevc_rate_counterexamples :
+    let a : IpcHub.HevcSyntax.SpsSyn :=
+      { pic_width_in_luma_samples := 1280, pic_height_in_luma_samples := 720, ordering := [(4, 2, 5)],
+        vui_parameters_present_flag := true,
+        vui := { vui_timing_info_present_flag := true, vui_num_units_in_tick := 1001, vui_time_scale := 30000 } }
+    let b : IpcHub.HevcSyntax.SpsSyn :=
+      { pic_width_in_luma_samples := 1280, pic_height_in_luma_samples := 720, ordering := [(4, 2, 5)],
+        vui_parameters_present_flag := true,
+        vui := { vui_timing_info_present_flag := true, vui_num_units_in_tick := 1, vui_time_scale := 50,
+                 vui_hrd_parameters_present_flag := true,
+                 hrd := { sub_layers := [{ fixed_pic_rate_general_flag := true, elemental_duration_in_tc_minus1 := 1 }] } } }
+    (IpcHub.Hevc.metadataIsReady IpcHub.Hevc.genCfg [0x40] (IpcHub.HevcSyntax.encSpsNal a) [0x44]).map (·.fixed) = some true ∧
+    IpcHub.HevcSyntax.fixedFrameRateStd a = false ∧
+    (IpcHub.Hevc.metadataIsReady IpcHub.Hevc.genCfg [0x40] (IpcHub.HevcSyntax.encSpsNal b) [0x44]).map (·.fps) = some (some (50, 1)) ∧
+    IpcHub.HevcSyntax.frameRateStd b = some (50, 2) ∧ IpcHub.HevcSyntax.fixedFrameRateStd b = true := by
+  decide +kernel
+
+/-- C15, last clause, H.265: the same as `c15_total_usable_h264` with sprop-vps / sprop-sps / sprop-pps of the SDP being ANY
+    byte strings and the in-band repetition VPS, SPS (any syntax tree in range), PPS, slice through the H.265 depacketizer. -/
+theorem c15_total_usable_hevc (vps0 sps0 pps0 : List UInt8) (s : IpcHub.HevcSyntax.SpsSyn) (hw : IpcHub.Hevc.HeadWF s)
+    (bw : IpcHub.Hevc.BodyWF s) (htid : 1 ≤ s.nuh_temporal_id_plus1) (vps pps : List UInt8) (hv : vps ≠ []) (hp : pps ≠ []) :
+    let dec := IpcHub.MetaReady.dec265 IpcHub.Hevc.genCfg
+    let std : IpcHub.MetaReady.Dims := { width := IpcHub.HevcSyntax.croppedWidth s, height := IpcHub.HevcSyntax.croppedHeight s,
+                                         fixed := IpcHub.HevcSyntax.fixedFrameRate s, fps := IpcHub.HevcSyntax.frameRate s }
+    let r := IpcHub.MetaReady.afterSdpAndInBand true dec vps0 sps0 pps0 vps (IpcHub.HevcSyntax.encSpsNal s) pps
+    r.2 = true ∧ r.1.metaReady = true ∧
+    ((r.1.vm.sps = removeNaluSeparator sps0 ∧ dec (removeNaluSeparator sps0) = some r.1.vm.dims) ∨
+     (r.1.vm.sps = IpcHub.HevcSyntax.encSpsNal s ∧ r.1.vm.dims = std)) ∧
+    (dec (removeNaluSeparator sps0) = none → r.1.vm.sps = IpcHub.HevcSyntax.encSpsNal s ∧ r.1.vm.dims = std) := by
+  intro dec std r
+  obtain ⟨raw, hd, ha⟩ := IpcHub.Hevc.decodeSps_enc _ c15_hevc_source_facts.1 s hw bw htid
+  have hdim := IpcHub.Hevc.dims_of_agrees raw s ha
+  have hdec : dec (IpcHub.HevcSyntax.encSpsNal s) = some std := by
+    simp only [dec, IpcHub.MetaReady.dec265, hd]
+    simp only [IpcHub.Hevc.dimsOf] at hdim
+    injection hdim with h1 h2 h3 h4
+    simp [std, h1, h2, h3, h4]
+  have hne : IpcHub.HevcSyntax.encSpsNal s ≠ [] := by
+    obtain ⟨b0, b1, hpk, _, _⟩ := IpcHub.Hevc.pack_nalHeader 33 s.nuh_layer_id s.nuh_temporal_id_plus1 (Or.inr rfl) ⟨htid, hw.tid⟩
+    simp [IpcHub.HevcSyntax.encSpsNal, hpk]
+  exact IpcHub.MetaReady.usable true dec vps0 sps0 pps0 vps (IpcHub.HevcSyntax.encSpsNal s) pps (fun _ => hv) hne hp std hdec
 
 /-- H.265 VPS, **partial**.  Full statement: for every VPS syntax tree in range `H265RawVPS.Decode` on the NAL unit of
     the specification's encoder succeeds and agrees with the tree.  Proved for every tree whose hrd_parameters()
@@ -312,6 +450,24 @@ example : let s : IpcHub.HevcSyntax.SpsSyn :=
         (rw [g]; simp [IpcHub.HevcSyntax.arraysOf, IpcHub.HevcSyntax.sumsOf, IpcHub.HevcSyntax.pick,
           IpcHub.HevcSyntax.candidatesS0, IpcHub.HevcSyntax.candidatesS1, IpcHub.HevcSyntax.RpsArrays.numDeltaPocs,
           IpcHub.Hevc.Desc, IpcHub.Hevc.Asc, List.zipIdx])
+
+/-- `RateAgree` is satisfiable by a tree WITH timing information: 1/50 with fixed_pic_rate_general_flag = 1 and one clock
+    tick per picture — the standard and the code both say fixed, 50 pictures per second -/
+example : let s : IpcHub.HevcSyntax.SpsSyn :=
+      { pic_width_in_luma_samples := 1280, pic_height_in_luma_samples := 720, ordering := [(4, 2, 5)],
+        vui_parameters_present_flag := true,
+        vui := { vui_timing_info_present_flag := true, vui_num_units_in_tick := 1, vui_time_scale := 50,
+                 vui_hrd_parameters_present_flag := true,
+                 hrd := { sub_layers := [{ fixed_pic_rate_general_flag := true }] } } }
+    IpcHub.HevcSyntax.RateAgree s ∧ IpcHub.HevcSyntax.fixedFrameRateStd s = true ∧
+    IpcHub.HevcSyntax.frameRateStd s = some (50, 1) := by
+  intro s
+  refine ⟨⟨fun _ => by decide, ?_⟩, by decide, by decide⟩
+  intro l hl _
+  have : IpcHub.HevcSyntax.topHrdSubLayer s = some { fixed_pic_rate_general_flag := true } := by decide
+  rw [this] at hl
+  injection hl with hl
+  rw [← hl]
 
 /-- a VPS with two sub-layers, one layer set, timing and one HRD meets `VpsWF` -/
 example : IpcHub.Hevc.VpsWF
